@@ -55,6 +55,7 @@ def refundCoded (fwdBurnt arrivedAsVoucher : Bool) (a : Int) (m : Mid) : Mid :=
   if !fwdBurnt then
     if !arrivedAsVoucher then { m with ef := m.ef - a, er := m.er + a }            -- escrow → refund escrow
     else { m with ef := m.ef - a, v := m.v - a, te := m.te - a }                   -- escrow → module, burn, unescrowToken
+  else if arrivedAsVoucher then m     -- forwarded back over the arrival channel: mint and burn cancelled (fix f970a92)
   else { m with v := m.v + a, er := m.er + a, te := m.te + a }                     -- mint → refund escrow, total escrow += coin
 
 /-- the two prefix tests as functions of what happened: the forward burnt iff the coin is a voucher that
@@ -73,10 +74,13 @@ def bounceBack (h : FHop) (a : Int) (m : Mid) : Mid := refund h.recv h.fwd a (fw
 inductive Outcome | delivered | refundedClean | refundedDirty
 deriving DecidableEq, Repr
 
+/-- does the coded refund put this intermediate chain back exactly (for one unit; linear in the amount) -/
+def FHop.restores (h : FHop) : Bool := bounceBack h 1 ⟨0, 0, 0, 0⟩ == ⟨0, 0, 0, 0⟩
+
 /-- a whole route: the intermediate chains that forwarded, and whether something failed downstream of them -/
 def routeOutcome (forwarded : List FHop) (failed : Bool) : Outcome :=
   if !failed then .delivered
-  else if forwarded.all (fun h => !(h.recv == .mint && h.fwd == .burn)) then .refundedClean
+  else if forwarded.all FHop.restores then .refundedClean
   else .refundedDirty
 
 end IbcVerif.Pfm
